@@ -24,9 +24,17 @@ class HippoLLSDBaseFormatter(base_llsd.base.LLSDBaseFormatter):
         self.type_map[Vector3] = self.TUPLECOORD
         self.type_map[Vector4] = self.TUPLECOORD
         self.type_map[Quaternion] = self.TUPLECOORD
+        self.type_map[datetime.datetime] = self.AWARE_DATE
 
     def TUPLECOORD(self, v: TupleCoord):
         return self.ARRAY(v.data())
+
+    def AWARE_DATE(self, v: datetime.datetime):
+        # llbase appends "Z" to the ISO date, which is only right for naive (UTC) datetimes.
+        # Our binary parser hands out timezone-aware ones, normalize them first.
+        if v.tzinfo is not None:
+            v = v.astimezone(datetime.timezone.utc).replace(tzinfo=None)
+        return self.DATE(v)
 
 
 class HippoLLSDXMLFormatter(base_llsd.serde_xml.LLSDXMLFormatter, HippoLLSDBaseFormatter):
